@@ -286,6 +286,8 @@ def main(tier):
                           {"kind": "fault", "fault": f, "via": via, "doc": m["doc"], "main": text, "files": files,
                            "sites": sites, "block_spans": bs, "observed": o, "signature": sig}, sig)
     chk.extra["faults_injected_by_kind"] = kinds
+    import fixrel
+    fixrel.c11(chk, tier)
     if meta:
         x = next(iter(meta.values()))
         chk.sample({"fault": x[1], "via": x[2], "document": x[3][:600]})
@@ -297,6 +299,9 @@ def main(tier):
 
 def replay(path):
     rp = json.load(open(path))["replay"]
+    if rp.get("kind") == "fxfault":
+        import fixrel
+        return fixrel.replay("C11", rp)
     chk = Check("C11", "quick")
     chk.evaluations = 1
     ff = {"main.jst": b64(rp["main"])}
